@@ -48,6 +48,8 @@ class Gen:
         self.readcall = 0.0  # probability that a pure-arithmetic statement is instead a call returning a value (impure input of setups)
         self.nested = 0.0  # probability that a loop body is "setup/launch/await of one accelerator, then an inner loop of the same form"
         self._plan = []
+        self.iv_stack = []  # induction variables (index typed) of the enclosing loops
+        self.ii_stack = []  # their i32 casts at the head of the loop bodies
         self.ifinput = 0.0  # probability that one field of a setup is computed by an scf.if from a local and an outer computed value
 
     def loop_bounds(self):
@@ -85,10 +87,21 @@ class Gen:
             # the conditional is itself an input of the setup: its branch computes from a region-local value and from a value
             # computed just in front of it (either operand order), the other branch yields an existing value
             x, k, y, rr = self.fresh(), self.fresh(), self.fresh(), self.fresh("r")
-            pre_lines.append(f"{ind}{x} = arith.{self.r.choice(['muli', 'addi'])} {self.r.choice(vals)}, {self.r.choice(vals)} : i32")
+            iv_inside = bool(self.iv_stack) and self.r.random() < 0.5
+            xv = vals
+            if iv_inside:
+                # ... and nothing else the setup reads depends on that induction variable outside the region
+                xv = [w for w in vals if w not in self.ii_stack] or vals
+                chosen = {f: (v if v in xv else self.r.choice(xv)) for f, v in chosen.items()}
+            pre_lines.append(f"{ind}{x} = arith.{self.r.choice(['muli', 'addi'])} {self.r.choice(xv)}, {self.r.choice(xv)} : i32")
             c = self.r.choice(["%c0", "%c1"])
             a, b = (k, x) if self.r.random() < 0.6 else (x, k)
-            then = [f"{ind}  {k} = arith.{self.r.choice(['addi', 'muli'])} {self.r.choice(vals)}, {self.r.choice(vals)} : i32",
+            if iv_inside:
+                # the ONLY read of an induction variable sits inside the region of the conditional
+                first = f"{ind}  {k} = arith.index_cast {self.iv_stack[-1]} : index to i32"
+            else:
+                first = f"{ind}  {k} = arith.{self.r.choice(['addi', 'muli'])} {self.r.choice(vals)}, {self.r.choice(vals)} : i32"
+            then = [first,
                     f"{ind}  {y} = arith.{self.r.choice(['addi', 'subi'])} {a}, {b} : i32", f"{ind}  scf.yield {y} : i32"]
             other = [f"{ind}  scf.yield {self.r.choice(vals)} : i32"]
             if self.r.random() < 0.5:
@@ -276,7 +289,9 @@ class Gen:
                     out.append(f"{ind}{', '.join(rs)} = scf.for {i} = {lbn} to {ubn} step {stn} iter_args({ia}) -> ({tys}) {{")
                     out.append(f"{ind}  {ii} = arith.index_cast {i} : index to i32")
                     inner = vals + [ii] + ps + ps
+                    self.iv_stack.append(i); self.ii_stack.append(ii)
                     out += self.loop_body(inner, depth - 1, ind + "  ", cur)
+                    self.iv_stack.pop(); self.ii_stack.pop()
                     nxt = []
                     for p in ps:
                         v = self.fresh()
@@ -288,7 +303,9 @@ class Gen:
                 else:
                     out.append(f"{ind}scf.for {i} = {lbn} to {ubn} step {stn} {{")
                     out.append(f"{ind}  {ii} = arith.index_cast {i} : index to i32")
+                    self.iv_stack.append(i); self.ii_stack.append(ii)
                     out += self.loop_body(vals + [ii, ii], depth - 1, ind + "  ", cur)
+                    self.iv_stack.pop(); self.ii_stack.pop()
                     out.append(f"{ind}}}")
                 for _k in [k for k in cur if not k.startswith('_')]:
                     del cur[_k]
